@@ -2,7 +2,6 @@
 import os, json, shutil, concurrent.futures
 from lib import vlib
 
-READY = False
 RULE = ("one case per state of Hostile.tla: (entry point, valid base encoding, sequence of <= Depth corruptions: every truncation, every position set to "
         "boundary values and +-1, every 2/4-byte run driven to extremes/wrap values/own length, appended garbage; text: separators, deletions, duplications); "
         "distinct = distinct corrupted inputs per base")
@@ -23,12 +22,37 @@ def run(chk, replay=None):
         shards = 12
         maxpos, tail = (40, 8) if tier == "quick" else (0, 0)
 
+        def replay(cases, res):
+            """Run the replay driver; if the process is killed by a fatal runtime error (stack overflow from unbounded
+            recursion, out of memory) bisect for the first case that kills it and report that case."""
+            try:
+                vlib.run_harness("c07.replay", cases, res, {"bases": bases}, timeout=3000)
+                return
+            except vlib.Infra as e:
+                msg = str(e)
+                fatal = [k for k in ("stack overflow", "goroutine stack exceeds", "out of memory", "cannot allocate memory") if k in msg]
+                if not fatal:
+                    raise
+            n = sum(1 for _ in open(cases))
+            lo, hi = 0, n          # invariant: running the first lo cases survives, the first hi cases dies
+            while hi - lo > 1:
+                mid = (lo + hi) // 2
+                try:
+                    vlib.run_harness("c07.replay", cases, res + ".bisect", {"bases": bases, "to": mid}, timeout=3000)
+                    lo = mid
+                except vlib.Infra:
+                    hi = mid
+            aspect = "non-termination:stack-overflow" if "stack" in fatal[0] else "allocation:out-of-memory"
+            # confirm in a fresh process: the culprit alone must kill it
+            vlib.run_harness("c07.replay", cases, res, {"bases": bases, "describe": hi - 1, "aspect": aspect,
+                                                      "why": "fatal error: " + fatal[0] + " (unrecoverable; reproduced by bisection in fresh processes)"}, timeout=600)
+
         def one(sh):
             cases = os.path.join(d, "h%d.ndjson" % sh)
             r = vlib.run_tlc("Hostile", vlib.cfg("C07_hostile.cfg", DEPTH=1, MAXPOS=maxpos, TAILPOS=tail, SHARD=sh, SHARDS=shards),
                              extra_files={"bases.json": bases}, emit_to=cases, timeout=2400, heap="3g")
             res = os.path.join(d, "h%d.res" % sh)
-            vlib.run_harness("c07.replay", cases, res, {"bases": bases}, timeout=2400)
+            replay(cases, res)
             os.remove(cases)
             return sh, r, res
         vlib.build_harness()
@@ -47,7 +71,7 @@ def run(chk, replay=None):
                     "ByteVals = {0, 1, 127, 128, 254, 255}", "ByteVals = {0, 255}")
                 r = vlib.run_tlc("Hostile", c2, extra_files={"bases.json": bases}, emit_to=cases, timeout=3000, heap="3g")
                 res = os.path.join(d, "d%d.res" % sh)
-                vlib.run_harness("c07.replay", cases, res, {"bases": bases}, timeout=3000)
+                replay(cases, res)
                 os.remove(cases)
                 return sh, r, res
             with concurrent.futures.ThreadPoolExecutor(max_workers=min(12, vlib.NCPU)) as ex:
